@@ -823,6 +823,10 @@ def report(rep, case, m, what):
         rep.violation(f'C04:{case.name}', f'{what}; native loopback with {op}: {why}', {'op': op, 'native': nat})
     else:
         rep.inconc(f'model mismatch C04 {case.name}: {what} with {op} does not reproduce natively ({why}; {str(nat)[:200]})')
+        if 'URI of unknown structure' in what and sum('URI of unknown structure' in w for w in rep.inconclusive) >= 6:
+            # the client no longer assembles its URI from the pieces the router contract is defined on (six solver-chosen samples are
+            # delivered fine natively): nothing more can be decided for this case, stop exploring its paths
+            raise Inconclusive(f'C04 {case.name}: the URI is assembled in a way the router contract has nothing to attach to (6 native samples are fine)')
 
 
 def set_eq(g, w):
